@@ -34,9 +34,17 @@ TFd ==
     /\ Inc(Ev.src, 35) /\ Inc(Ev.liou, 35)
     /\ Ev.src[4] >= 150 /\ Ev.liou[4] >= 150             \* below 3% at M = 80
 
+TFdHist ==
+    /\ IsEvent("fdhist")
+    /\ FDHistory(Ev.M, Ev.N, Ev.P, Ev.bN)
+    /\ Ev.out = "ok"
+    /\ Ev.same                                           \* spectral solve after the cross-check = the one before, bit for bit
+    /\ Ev.basisKept                                      \* the solver's collision array is still in its own basis
+    /\ Ev.fdFinite                                       \* (accuracy of the cross-check itself: the FD chain)
+
 TMoment ==
     /\ IsEvent("moment")
-    /\ MomentCell(Ev.N, Ev.scale, Ev.mass)
+    /\ MomentCell(Ev.N, Ev.scale, Ev.mass, Ev.grid) /\ Ev.grid \in GridKinds
     /\ Ev.out = "ok"
     \* identification table: row = moment computed by the code, column = weight the deviation was built for
     /\ \A m \in Moments, w \in Moments :
@@ -47,6 +55,6 @@ TMoment ==
 TDone == job.active /\ Done /\ UNCHANGED <<tid, l>>
 
 TInit == TraceInitLib /\ Init
-TNext == (PROP = "C12" /\ (TSolve \/ TBasis \/ TFd)) \/ (PROP = "C13" /\ TMoment) \/ TDone
+TNext == (PROP = "C12" /\ (TSolve \/ TBasis \/ TFd \/ TFdHist)) \/ (PROP = "C13" /\ TMoment) \/ TDone
 TSpec == TInit /\ [][TNext]_<<vars, tid, l>>
 =============================================================================
